@@ -2,7 +2,10 @@
 #   MC   spec/mc/LifeMC       exhaustive small-scope check of the reference/ownership design + negative configs
 #   GEN  spec/gen/LifeGen     all behaviours of a small depth (breadth-first) and -generate behaviours of depth ~25,
 #                             each ending with the client dropping everything it owns
-#   EXEC harness/drv_life.c   (+ life_alloc.c, --wrap=malloc/calloc/realloc/free) on the ASan build of /repo
+#                             pressure mode (PressSpec): histories of one glyph cache that bring its table into each of
+#                             the situations an outermost thaw distinguishes (Image!GPressureClasses) and thaw it there
+#   EXEC harness/drv_life.c   (+ life_alloc.c, --wrap=malloc/calloc/realloc/free) on the ASan build of /repo; the
+#                             pressure histories on an ASan build with water marks 8 / 3 (16 slots)
 #   TV   spec/trace/LifeTrace every recorded call, with the allocations, reference-count reports and destroy
 #                             callbacks inside it, validated by TLC
 import json
@@ -24,9 +27,31 @@ CLAIMS = {
              "every buffer is freed exactly once in the unref that returns TRUE, the callback runs once before the "
              "frees and nothing is left when the client has dropped everything; ten wrong designs are rejected. Every "
              "call history of depth 3 and random histories of depth 25 are replayed on the real library; TLC "
-             "validates each call's unref return value, hook-reported counts, callbacks and the live-allocation set. " + 'Directed histories: every ordered pair of concrete setter values (incl. a zero-length parameter block) on every image kind, and one alpha map shared by two holders released in every order.' + "",
+             "validates each call's unref return value, hook-reported counts, callbacks and the live-allocation set. " + 'Directed histories: every ordered pair of concrete setter values (incl. a zero-length parameter block) on every image kind, and one alpha map shared by two holders released in every order.' + " Glyph-cache pressure: histories generated from the specification thaw a cache whose table is below the high-water mark, above it (eviction to the low-water mark), tombstone-dominated with few and with many live glyphs (ASan build with marks 8/3 where all of these are reachable; the situations actually recorded are measured from the library's counters and a missing one is a vacuous run); every copy the thaw lets go must be released once and completely, the survivors are drawn, removed or left to destroy, and nothing is live at the end.",
         ref="5 C20"),
 }
+
+# A build whose water marks leave room for every situation an outermost thaw distinguishes: with the stock small-table
+# flavour (4 / 2, 8 slots, at most 7 of them occupied) a table cannot hold more tombstones than the high-water mark AND
+# more live glyphs than the low-water mark; that needs low <= high - 3.  (Flavours are looked up by name in vf.FLAVOURS;
+# this one belongs to this check, so it is registered here rather than in lib/vf.py.)
+G_HIGH, G_LOW = 8, 3
+PRESSURE_FLAVOUR = "glyph%dx%d-asan" % (G_HIGH, G_LOW)
+vf.FLAVOURS.setdefault(PRESSURE_FLAVOUR, (
+    ["-D" + vf.GUARD, "-DPIXMAN_VERIF_GLYPH_HIGH_WATER=%d" % G_HIGH, "-DPIXMAN_VERIF_GLYPH_LOW_WATER=%d" % G_LOW,
+     "-fsanitize=address", "-fno-omit-frame-pointer", "-O1"],
+    ["-Db_lundef=false"], ["-fsanitize=address", "-fno-omit-frame-pointer"]))
+PRESSURE_CLASSES = ["below", "evict", "settled", "dump", "dump_over"]      # Image!GPressureClasses
+
+
+def pressure_class(g, t, high, low):
+    """Image!GPressure, used only to MEASURE which situations the recorded thaws were in"""
+    if g + t <= high:
+        return "below"
+    if t > high:
+        return "dump_over" if g > low else "dump"
+    return "evict" if g > low else "settled"
+
 
 LDFLAGS = ["-Wl,--wrap=malloc,--wrap=calloc,--wrap=realloc,--wrap=free"]
 NEGATIVE = ["leak_old_map", "no_ref_new", "selfattach", "cb_after_frees", "cb_twice", "no_free_bits",
@@ -59,7 +84,8 @@ def gen(mode, depth, seed, n=0, img="{1, 2, 3}", gkeys="{1, 2}", maxheld=3, tag=
     path = os.path.join(vf.SPEC, "gen", "LifeGen.tla")
     cfg = os.path.join(vf.workdir(tag), "LifeGen.cfg")
     open(cfg, "w").write("SPECIFICATION GenSpec\nCONSTANTS\n  Img = %s\n  GKeys = %s\n  MaxHeld = %d\n  Bugs = {}\n"
-                         "  Depth = %d\nINVARIANT EmitBehaviour\n" % (img, gkeys, maxheld, depth))
+                         "  Depth = %d\n  GHigh = 4\n  GLow = 2\n  Goal = \"\"\nINVARIANT EmitBehaviour\n"
+                         % (img, gkeys, maxheld, depth))
     if mode == "bfs":
         r = vf.run_tlc(path, cfg=cfg, workers=4, timeout=1500, xmx="6g", tag=tag)
     else:
@@ -73,6 +99,23 @@ def gen(mode, depth, seed, n=0, img="{1, 2, 3}", gkeys="{1, 2}", maxheld=3, tag=
         behs.append(json.loads(json.loads(b)))
     if not behs:
         raise vf.Infra("LifeGen produced no behaviours:\n" + r.out[-2000:])
+    return behs, r
+
+
+def gen_pressure(goal, seed, n, tag="lgenp"):
+    """histories of one glyph cache thawed in situation `goal` (spec/gen/LifeGen.tla, PressSpec)"""
+    path = os.path.join(vf.SPEC, "gen", "LifeGen.tla")
+    cfg = os.path.join(vf.workdir(tag), "LifePress_%s.cfg" % goal)
+    open(cfg, "w").write("SPECIFICATION PressSpec\nCONSTANTS\n  Img = {1}\n  GKeys = {%s}\n  MaxHeld = 1\n  Bugs = {}\n"
+                         "  Depth = 0\n  GHigh = %d\n  GLow = %d\n  Goal = \"%s\"\nINVARIANT EmitPressure\n"
+                         % (", ".join(str(k) for k in range(1, 2 * G_HIGH)), G_HIGH, G_LOW, goal))
+    r = vf.run_tlc(path, cfg=cfg, workers=2, timeout=600, tag=tag + goal,
+                   extra=["-generate", "num=%d" % n, "-depth", "600", "-seed", str(seed)])
+    seen, behs = set(), []
+    for b in r.vf("behaviour"):
+        if b not in seen:
+            seen.add(b)
+            behs.append(json.loads(json.loads(b)))
     return behs, r
 
 
@@ -225,7 +268,9 @@ def run(prop, args):
     if args.replay:
         script = args.replay if args.replay.endswith(".script") else args.replay + ".script"
         tr = os.path.join(wd, "replay.ndjson")
-        execute(script, tr)
+        first = open(script).readline()
+        execute(script, tr, flavour=PRESSURE_FLAVOUR if " press_" in first else
+                "smallglyph-asan" if " evict" in first else "asan")
         vf.validate_batches(chk, "LifeTrace", [tr], cfg=cfg, parallel=1)
         return chk.finish()
 
@@ -285,12 +330,54 @@ def run(prop, args):
     count_events(chk, tr)
     for k, h in enumerate(EVICTION):
         execs.append(["reset evict%d" % k] + h + ["end"])
+    # every situation an outermost thaw distinguishes, on the build whose water marks make all of them reachable
+    npress = 6 if quick else 60
+    pexecs = []
+    from concurrent.futures import ThreadPoolExecutor
+    with ThreadPoolExecutor(len(PRESSURE_CLASSES)) as ex:      # (a goal that needs few live glyphs gets stuck more often)
+        gens = list(ex.map(lambda a: gen_pressure(a[1], args.seed + a[0], 3 * npress, tag="lgenp%d" % a[0]),
+                           enumerate(PRESSURE_CLASSES)))
+    for gi, goal in enumerate(PRESSURE_CLASSES):
+        behs, r = gens[gi]
+        behs = behs[:npress]
+        chk.add_tlc(r, "behaviour generation (LifeGen pressure mode, thaw in situation '%s')" % goal)
+        if not behs:
+            raise vf.Infra("LifeGen (pressure mode) produced no history that thaws the cache in situation %s:\n%s"
+                           % (goal, r.out[-1500:]))
+        for k, b in enumerate(behs):
+            pexecs.append(to_script(b, "press_%s_%d" % (goal, k), rng))
+    sp = os.path.join(wd, "press.ndjson.script")
+    with open(sp, "w") as f:
+        for e in pexecs:
+            f.write("\n".join(e) + "\n")
+    tr = os.path.join(wd, "press.ndjson")
+    execute(sp, tr, flavour=PRESSURE_FLAVOUR)
+    traces.append(tr)
+    count_events(chk, tr)
+    execs += pexecs
+    # which situations were the recorded thaws in (all traces; measured from the counters the library reports)
+    seen_cls = {}
+    for t in traces:
+        for line in open(t):
+            if line.startswith('{"e":"Op"') and '"op":"gthaw"' in line:
+                try:
+                    g, tb, hi, lo = json.loads(line)["press"]
+                except (ValueError, KeyError):
+                    continue
+                key = "%s (marks %d/%d)" % (pressure_class(g, tb, hi, lo), hi, lo)
+                seen_cls[key] = seen_cls.get(key, 0) + 1
+    chk.extra["thaw_situations_recorded"] = seen_cls
+    missing = [c for c in PRESSURE_CLASSES if "%s (marks %d/%d)" % (c, G_HIGH, G_LOW) not in seen_cls]
+    crashed = '"e":"Crash"' in open(tr).read()[-300:]
+    if missing and not crashed:
+        raise vf.Infra("no recorded thaw found the glyph table in situation(s) %s: the pressure histories do not "
+                       "cross every threshold (vacuous)" % missing)
     chk.extra["executions"] = len(execs)
     chk.extra["build"] = px["hash"]
     chk.sample({"script_lines": execs[-1]})
 
     # 4. trace validation
-    vf.validate_batches(chk, "LifeTrace", traces, cfg=cfg, parallel=nb, timeout=1500)
+    vf.validate_batches(chk, "LifeTrace", traces, cfg=cfg, parallel=nb + 2, timeout=1500)
     for v in chk.violations:
         try:
             lines = open(v["replay"]).read().splitlines()
